@@ -464,15 +464,15 @@ class SStrPlugin(object):
             if b is not None and pos >= b:
                 break
             n = plen(p)
+            if pos is None:
+                out.append(p)
+                continue
             if n is None:
                 if pos >= a and b is None:
                     out.append(p)       # the open tail: everything from here on
                     pos = None
                     continue
                 return None
-            if pos is None:
-                out.append(p)
-                continue
             lo, hi = max(a, pos), (pos + n if b is None else min(b, pos + n))
             if lo < hi:
                 if lo == pos and hi == pos + n:
